@@ -131,7 +131,7 @@ Definition nu_ok (x : xworld) (t : nat) : Prop :=
 Lemma nu_not_parked x t : nu_ok x t -> wph2 (x_pc (xget x t)) = false /\ isq (kof (mw x) t) = false.
 Proof.
   intros (Hp & _ & Pi & _). unfold kof. rewrite Pi. split; [|reflexivity].
-  destruct (x_pc (xget x t)) as [ | | | | | | | | | | | | | | | | | | | | |om|om| |om|om|om|om| ]; try reflexivity; discriminate Hp.
+  destruct (x_pc (xget x t)) as [ | | | | | | | | | | | | | | | | | | | | |om|om| |om|om|om|om| | ]; try reflexivity; discriminate Hp.
 Qed.
 
 Lemma get_mw_conv (w : world) t f b : get (set_waiting w f b) t = get w t. Proof. reflexivity. Qed.
@@ -151,7 +151,7 @@ Proof.
     rewrite (mu_idle_intro _ _ Pi To).
     assert (t < length (xthr x))%nat as Ht by (apply xget_inb; rewrite Hx; discriminate).
     cbn [forallb] in Ho. apply andb_prop in Ho. destruct Ho as [Oo Ho].
-    destruct o as [o'|m| | |[m|]]; try discriminate Oo; unfold nu_ok; xnorm; rewrite !nth_lupd_same by exact Ht;
+    destruct o as [o'|m| | |[m|]|m]; try discriminate Oo; unfold nu_ok; xnorm; rewrite !nth_lupd_same by exact Ht;
       cbn [x_pc x_ops nu_pc]; auto. }
   clear H0. unfold xstep_thr. set (xw := xbegin x t) in *. clearbody xw. clear x. cbv zeta.
   destruct H1 as (Hp & Ho & Pi & To & Hh).
@@ -217,7 +217,7 @@ Proof.
             nrec (mk_xw (mw x) (cvq x) (xferred x) (lupd (xthr x) t (mk_xt p rest xr))) f = true) as NR.
   { intros p Np f Hf. unfold nrec in *. destruct (Nat.eq_dec f t) as [->|N]; [rewrite Hx in Hf; discriminate Hf|].
     now rewrite xget_lupd_other. }
-  destruct o as [o'|m| | |[m|]]; try discriminate Oo; unfold nu_ok; xnorm; rewrite ?nth_lupd_same by exact Ht;
+  destruct o as [o'|m| | |[m|]|m]; try discriminate Oo; unfold nu_ok; xnorm; rewrite ?nth_lupd_same by exact Ht;
     cbn [x_pc x_ops nu_pc xtouches_mu]; (split; [auto|]); (split; [reflexivity|]); (split; [reflexivity|]); (split; [reflexivity|]);
     apply NR; reflexivity.
 Qed.
@@ -340,7 +340,7 @@ Qed.
 (* when nobody owns a reference: nobody sits on the mutex queue or on a wake list, no native waiter is on the cv *)
 Lemma no_pre_facts n w : RXInv n w -> refs w = 0 ->
   queue (mw (xw w)) = [] /\ (forall u, wlt (mw (xw w)) u = []) /\
-  (forall f, (In f (cvq (xw w)) \/ exists u, In f (kws (xw w) u)) -> nrec (xw w) f = true).
+  (forall f, (In f (cvq (xw w)) \/ exists u, In f (kws (xw w) u)) -> xn_rec (x_pc (xget (xw w) f)) = true).
 Proof.
   intros H Z. pose proof H as (((HI & _ & HP & _) & _) & _ & I4 & _).
   pose proof (no_pre w I4 Z) as NP. destruct HP as (HM & HC & _).
@@ -353,14 +353,14 @@ Proof.
     destruct HM as (_ & _ & _ & Hw & _). destruct (Hw u p ltac:(first [now left | rewrite E; now left])) as (_ & X & _). rewrite NS in X. discriminate X.
   - intros f Hin. destruct HC as (_ & Hq & _ & Hw & _).
     assert (cvs (xw w) f = true) as Cf by (destruct Hin as [Hin | [u Hin]]; [apply (Hq f Hin) | apply (Hw u f Hin)]).
-    unfold nrec. destruct (xn_rec (x_pc (xget (xw w) f))) eqn:NR; [reflexivity | exfalso].
+    destruct (xn_rec (x_pc (xget (xw w) f))) eqn:NR; [reflexivity | exfalso].
     destruct (cvs_native _ _ Cf NR) as [W2 _]. destruct (gone_not_parked n w f H (NP f)) as [a _]. congruence.
 Qed.
 
 Lemma is_xidle_true p : is_xidle p = true -> p = XIdle.
 Proof. destruct p; try discriminate; reflexivity. Qed.
 Lemma only_unlock_true l : only_unlock l = true -> l = [XOp OUnlock].
-Proof. destruct l as [|[[| |]| | | |] [|]]; try discriminate; reflexivity. Qed.
+Proof. destruct l as [|[[| |]| | | | |] [|]]; try discriminate; reflexivity. Qed.
 Lemma no_xops_true l : no_xops l = true -> l = [].
 Proof. destruct l; try discriminate; reflexivity. Qed.
 Lemma holds_w_true h : holds_w h = true -> h = Some W.
@@ -381,7 +381,7 @@ Proof.
   intros H. pose proof H as (I1 & I3 & I4 & I5 & I6 & I7 & I8 & I9 & I10 & I10n & I11 & I12).
   pose proof I1 as ((HI & _) & _).
   assert (refs w = 0 -> forall f, In f (cvq (xw w)) -> nrec (xw w) f = true) as CVN
-    by (intros Z f Hf; apply (no_pre_facts n w H Z); now left).
+    by (intros Z f Hf; unfold nrec; rewrite (proj2 (proj2 (no_pre_facts n w H Z)) f (or_introl Hf)); reflexivity).
   clear H.
   assert (forall u, u <> t -> xget (fst (xstep_thr (xw w) t c)) u = xget (xw w) u /\
                                get (mw (fst (xstep_thr (xw w) t c))) u = get (mw (xw w)) u) as FR
@@ -571,25 +571,25 @@ Proof.
         destruct (k_wake k) as [|f rest] eqn:Ek; [now elim HX|].
         pose proof (HN T f ltac:(rewrite EX; cbn [vhd]; rewrite Ek; reflexivity)) as NR.
         pose proof (CV0 f ltac:(right; exists T; unfold kws; rewrite EX; cbn [kwl]; rewrite Ek; now left)) as X.
-        unfold nrec in X. congruence.
+        congruence.
       * (* XvCas1 *)
         destruct I1 as ((_ & _ & _ & _ & (_ & HX)) & _). specialize (HX T). rewrite EX in HX. cbn [xpcH] in HX. destruct HX as [_ HX].
         destruct (k_wake k) as [|f rest] eqn:Ek; [now elim HX|].
         pose proof (HN T f ltac:(rewrite EX; cbn [vhd]; rewrite Ek; reflexivity)) as NR.
         pose proof (CV0 f ltac:(right; exists T; unfold kws; rewrite EX; cbn [kwl]; rewrite Ek; now left)) as X.
-        unfold nrec in X. congruence.
+        congruence.
       * (* XvLoad3: owns the spinlock; the queue is empty, so its release clears MU_WAITING, so a native waiter is on its list *)
         destruct HQ as (_ & _ & C & _). specialize (C T (tb2 (k_clr k)) ltac:(unfold xk; rewrite EX; reflexivity)).
         destruct (HK T k ltac:(rewrite EX; reflexivity) (proj2 C Q0)) as (f & Hin & NR).
-        pose proof (CV0 f ltac:(right; exists T; unfold kws; rewrite EX; exact Hin)) as X. unfold nrec in X. congruence.
+        pose proof (CV0 f ltac:(right; exists T; unfold kws; rewrite EX; exact Hin)) as X. congruence.
       * (* XvCas2 *)
         destruct HQ as (_ & _ & C & _). specialize (C T (tb2 (k_clr k)) ltac:(unfold xk; rewrite EX; reflexivity)).
         destruct (HK T k ltac:(rewrite EX; reflexivity) (proj2 C Q0)) as (f & Hin & NR).
-        pose proof (CV0 f ltac:(right; exists T; unfold kws; rewrite EX; exact Hin)) as X. unfold nrec in X. congruence.
+        pose proof (CV0 f ltac:(right; exists T; unfold kws; rewrite EX; exact Hin)) as X. congruence.
       * (* XvLoad5 *)
         destruct HQ as (_ & _ & C & _). specialize (C T (tb2 (k_clr k)) ltac:(unfold xk; rewrite EX; reflexivity)).
         destruct (HK T k ltac:(rewrite EX; reflexivity) (proj2 C Q0)) as (f & Hin & NR).
-        pose proof (CV0 f ltac:(right; exists T; unfold kws; rewrite EX; exact Hin)) as X. unfold nrec in X. congruence.
+        pose proof (CV0 f ltac:(right; exists T; unfold kws; rewrite EX; exact Hin)) as X. congruence.
 Qed.
 
 Lemma rxstep_rxinv w a : RXInv n w -> RXInv n (rxstep w a).
@@ -684,7 +684,7 @@ Lemma tail_after_free_x : forall progs sched, Z.of_nat (length progs) < 2 ^ 24 -
   let w := rxrun (rxinit progs) sched in
   freed w = true ->
   refs w = 0 /\ queue (mw (xw w)) = [] /\
-  (forall f, In f (cvq (xw w)) \/ (exists u, In f (kws (xw w) u)) -> nrec (xw w) f = true) /\
+  (forall f, In f (cvq (xw w)) \/ (exists u, In f (kws (xw w) u)) -> xn_rec (x_pc (xget (xw w) f)) = true) /\
   forall t, phase_of w t <> Pre /\
             (phase_of w t <> NonUser ->
                x_pc (xget (xw w) t) = XIdle /\ x_ops (xget (xw w) t) = [] /\ t_ops (get (mw (xw w)) t) = [] /\
@@ -726,7 +726,7 @@ Proof.
   unfold xbegin. cbv zeta. destruct (x_pc (xget x t)); try (split; reflexivity).
   destruct (x_ops (xget x t)) as [|o rest]; try (split; reflexivity).
   destruct (mu_idle (mw x) t); try (split; reflexivity).
-  destruct o as [o'|m| | |[m|]]; split; reflexivity.
+  destruct o as [o'|m| | |[m|]|m]; split; reflexivity.
 Qed.
 
 (* a step with step_touches = false leaves mu->word and mu->waiters as they were (that it does not READ them either is
@@ -768,6 +768,7 @@ Proof.
   - destruct (waiting (mw xw) t); [|destruct om]; split; reflexivity.
   - specialize (MS T). unfold mu_step. destruct (step (mw xw) t) as [m' e]. cbn [fst] in MS.
     destruct (mu_pc_idle (mw (set_mw xw m')) t); exact MS.
+  - split; reflexivity.
 Qed.
 
 (* ----- non-vacuity: the tail and the window occur with condition-variable traffic ----- *)
